@@ -28,6 +28,7 @@
 #include <openssl/x509v3.h>
 
 #include <cstdio>
+#include <initializer_list>
 #include <stdexcept>
 #include <string>
 #include <vector>
@@ -146,7 +147,8 @@ inline void generatePki(const std::string &dir)
     writeCert(P.cert(file), cert);
     writeKey(P.key(file), key);
   };
-  EVP_PKEY *kA, *kB, *kF; X509 *cA, *cB, *cF;
+  EVP_PKEY *kA, *kB, *kF, *kC; X509 *cA, *cB, *cF, *cC;
+  mkCa("ca-third", "vf-c07 root C", kC, cC);   // a third, unrelated root (never configured as an anchor)
   mkCa("ca-right", "vf-c07 root A", kA, cA);
   mkCa("ca-wrong", "vf-c07 root B", kB, cB);
   mkCa("ca-forged", "vf-c07 root A", kF, cF); // same DN as A, other key
@@ -185,6 +187,30 @@ inline void generatePki(const std::string &dir)
   { Spec s = cli; s.cn = "client-notyet"; s.notBeforeS = 1 * D; s.notAfterS = 2 * D; leaf("cli-notyet", s, cA, kA); }
   { Spec s = cli; s.cn = "client-forged"; leaf("cli-forged", s, cF, kF); }
 
+  leaf("srv-third", srv, cC, kC);
+  { Spec s = cli; s.cn = "client-third"; leaf("cli-third", s, cC, kC); }
+  // certificate FILE SHAPES: bundles as an operator would deploy them (key file = the leaf's key)
+  auto bundle = [&](const std::string &out, std::initializer_list<const char *> parts)
+  {
+    FILE *f = fopen(P.cert(out).c_str(), "w");
+    if (!f) throw std::runtime_error("pki: cannot write bundle " + out);
+    for (const char *part : parts)
+    {
+      FILE *in = fopen(P.cert(part).c_str(), "r");
+      if (!in) { fclose(f); throw std::runtime_error(std::string("pki: cannot read ") + part); }
+      char buf[4096]; size_t n;
+      while ((n = fread(buf, 1, sizeof buf, in)) > 0) fwrite(buf, 1, n, f);
+      fclose(in);
+    }
+    fclose(f);
+  };
+  bundle("srv-valid+ca-right", {"srv-valid", "ca-right"});   // fullchain: leaf + its issuing root
+  bundle("srv-valid+ca-third", {"srv-valid", "ca-third"});   // leaf + an unrelated root
+  bundle("ca-right+srv-valid", {"ca-right", "srv-valid"});   // CA first, then the leaf
+  bundle("cli-trusted+ca-right", {"cli-trusted", "ca-right"});
+  bundle("cli-trusted+ca-third", {"cli-trusted", "ca-third"});
+  bundle("ca-right+cli-trusted", {"ca-right", "cli-trusted"});
+
   { EVP_PKEY *k = genKey(); writeKey(P.key("other"), k); EVP_PKEY_free(k); }
 
   // hashed CA directory (what c_rehash would produce) and an empty one
@@ -195,8 +221,8 @@ inline void generatePki(const std::string &dir)
     snprintf(name, sizeof name, "%08lx.0", X509_subject_name_hash(cA));
     writeCert(P.p("capath-right") + "/" + name, cA);
   }
-  X509_free(cA); X509_free(cB); X509_free(cF);
-  EVP_PKEY_free(kA); EVP_PKEY_free(kB); EVP_PKEY_free(kF);
+  X509_free(cA); X509_free(cB); X509_free(cF); X509_free(cC);
+  EVP_PKEY_free(kA); EVP_PKEY_free(kB); EVP_PKEY_free(kF); EVP_PKEY_free(kC);
 }
 
 } // namespace c07
